@@ -123,6 +123,8 @@ type NNSDriver struct {
 	acc   map[string]util.Uint160
 	names []string // names whose read API is compared after every step
 	pre   []string // names registered for U1 during Build
+	// preLife: lifetime in seconds of a pre-registered name (regLifeS unless listed)
+	preLife map[string]int64
 }
 
 const nnsProbeSrc = `package probe
@@ -166,6 +168,16 @@ func NewNNSDriver(mode string) *NNSDriver {
 				nnsOp{kind: "setAdmin", name: n, who: "nil", signer: s("U1")},
 			)
 		}
+		// the ten-year cap from below and above: a name with nine years left (one more year fits, two do not)
+		// and one with nine years and an hour (not even one fits until an hour has passed)
+		d.pre = []string{"lng.com", "lnh.com"}
+		d.preLife = map[string]int64{"lng.com": 9 * 365 * 24 * 3600, "lnh.com": 9*365*24*3600 + 3600}
+		d.names = append(d.names, "lng.com", "lnh.com")
+		for _, n := range d.pre {
+			add(nnsOp{kind: "renew", name: n, years: 1, signer: s("U1")}, nnsOp{kind: "renew", name: n, years: 2, signer: s("U1")})
+		}
+		add(nnsOp{kind: "renew", name: "aa.com", years: 2, signer: s("U1")}, nnsOp{kind: "renew", name: "aa.com", years: 9, signer: s("U1")},
+			nnsOp{kind: "renew1", name: "aa.com", signer: s("U1")}, nnsOp{kind: "renew1", name: "aa.com", signer: s("S")})
 		add(nnsOp{kind: "renew", name: "aa.com", years: 0, signer: s("U1")}, nnsOp{kind: "renew", name: "aa.com", years: 11, signer: s("U1")},
 			nnsOp{kind: "renew", name: "com", years: 1, signer: s("Cm")}, nnsOp{kind: "renew", name: "com", years: 1, signer: s("U1")})
 		for _, st := range []string{"exp-1", "exp", "exp+1", "year"} {
@@ -324,7 +336,11 @@ func (d *NNSDriver) Build() *World {
 	}
 	u1 := []neotest.Signer{w.Acct("U1").S}
 	for _, n := range d.pre {
-		w.Invoke(nh, u1, "register", n, d.acc["U1"], "e@x.y", int64(3600), int64(600), regLifeS, int64(3600))
+		life := regLifeS
+		if l, ok := d.preLife[n]; ok {
+			life = l
+		}
+		w.Invoke(nh, u1, "register", n, d.acc["U1"], "e@x.y", int64(3600), int64(600), life, int64(3600))
 	}
 	if d.Mode == "C12m" {
 		w.Invoke(nh, u1, "renew", "aa.com", int64(1))
@@ -409,6 +425,8 @@ func (d *NNSDriver) OpName(_ *Node, i int) string {
 		return "time(" + o.step + ")"
 	case "renew":
 		return fmt.Sprintf("renew(%s,%d) by %v", o.name, o.years, o.signer)
+	case "renew1":
+		return fmt.Sprintf("renew(%s) by %v", o.name, o.signer)
 	case "add":
 		return fmt.Sprintf("addRecord(%s,%d,%q) by %v", o.name, o.typ, o.data, o.signer)
 	case "set":
@@ -602,8 +620,12 @@ func (d *NNSDriver) Step(x *Exec, n *Node, i int) StepResult {
 			expRet = "i1"
 			expNotifs = []Notif{{"nns", "Transfer", []any{"x" + r.owner, "x" + to, "i1", NXs(o.name)}}}
 		}
-	case "renew":
+	case "renew", "renew1":
 		scr = Script(h, "renew", o.name, o.years)
+		if o.kind == "renew1" {
+			scr = Script(h, "renew", o.name) // the one-argument overload: one year
+			o.years = 1
+		}
 		r, ok := m.names[o.name]
 		switch {
 		case o.years < 1 || o.years > 10:
